@@ -672,6 +672,11 @@ example : split E0 (.strObj sAXB) [.str []] ≠ Spec.split E0 (.strObj sAXB) [.s
 example : fromCharCode E0 [.f64 (.fin false (2^52 + 1) 11)] = .str [0] ∧
     Spec.fromCharCode E0 [.f64 (.fin false (2^52 + 1) 11)] = .str [2048] := by decide
 
+-- case_special: "ß".toUpperCase(), "İ".toLowerCase();  case_astral: "𐐀".toLowerCase()
+example : toUpperCase E0 (.strObj [0xC3, 0x9F]) [] = .str [0xDF] ∧ Spec.toUpperCase E0 (.strObj [0xC3, 0x9F]) [] = .str [0x53, 0x53] := by decide
+example : toLowerCase E0 (.strObj [0xC4, 0xB0]) [] = .str [0x69] ∧ Spec.toLowerCase E0 (.strObj [0xC4, 0xB0]) [] = .str [0x69, 0x307] := by decide
+example : toLowerCase E0 (.strObj [0xF0, 0x90, 0x90, 0x80]) [] ≠ Spec.toLowerCase E0 (.strObj [0xF0, 0x90, 0x90, 0x80]) [] := by decide
+
 /-! ## Non-vacuity of the side conditions -/
 example : NoAstral sAEB ∧ NoLone (.strObj sAEB) ∧ SmallInt (num 2) ∧ SmallInt (.int .i64 7) ∧ ¬ NoAstral sAXB := by
   refine ⟨by unfold NoAstral; decide, trivial, trivial, by show (7 : Int).natAbs < 2^53; decide, by unfold NoAstral; decide⟩
